@@ -62,6 +62,9 @@ pub fn run(cfg: &Cfg) -> i32 {
             continue;
         }
         pairs += 1;
+        if !cfg.mine(pairs) {
+            continue;
+        }
         let ref_json = Rc::new(corpus::read(refp));
         let own = match std::panic::catch_unwind(|| corpus::compile_file(&it.ink_path)) {
             Ok(Ok(j)) => Rc::new(j),
